@@ -9,7 +9,7 @@ def custom_native(ip, runner):
     code = c13_recs.NATIVE % {'native': os.path.join(VERIF, 'native')}
     return [native_bounded(runner, 'recommendations', 'removal/change == advertised algorithms rated fail/warn in the same report that the identified version knows; additions are clean, not advertised, not cert/sk/pseudo, available in the version; nothing both ways; no additions for unrecognised software',
                            code, '3 peers (modern, legacy with gss-*, unknown names) x banners of OpenSSH/Dropbear/libssh at every first-appeared version in the database and its neighbours, TinySSH, an unrecognised product',
-                           'Algorithms.get_recommendations')]
+                           'Algorithms.get_recommendations (run-time, enumerated versions)')]
 
 
 def build(chk, ip, runner):
